@@ -605,6 +605,8 @@ func generate(e *vh.Env) {
 			run(e, spec{Kind: "prog", Op: pat, Prog: genProg(r, pat, k)})
 		}
 	}
+	// ---- private instances in parallel (par.go)
+	genPar(e)
 	// ---- Bit64's own methods
 	bytesArg := []uint64{0, 1, 2, 31, 32, 62, 63, 64, 65, 127, 128, 129, 191, 192, 254, 255}
 	for _, op := range []string{"WSet", "WUnset", "WAnd", "WOr", "WReverse"} {
